@@ -300,8 +300,22 @@ class atom(boolean.AndRestriction):
         elif self.version is not None:
             raise errors.MalformedAtom(orig_atom, "versioned atom requires an operator")
 
-        self._hash = hash(orig_atom)
         self.negate_vers = negate_vers
+        # hash only what equality compares; the raw string differs for equal
+        # atoms (use dep order, strong vs weak blockers).
+        self._hash = hash(
+            (
+                self.cpvstr,
+                self.op,
+                self.blocks,
+                self.negate_vers,
+                self.use,
+                self.slot,
+                self.subslot,
+                self.slot_operator,
+                self.repo_id,
+            )
+        )
 
     __getattr__ = klass.GetAttrProxy("_cpv")
     __dir__ = klass.DirProxy("_cpv")
@@ -468,6 +482,14 @@ class atom(boolean.AndRestriction):
             return "" if v is None else v
 
         c = cmp(f(self.slot), f(other.slot))
+        if c:
+            return c
+
+        c = cmp(f(self.subslot), f(other.subslot))
+        if c:
+            return c
+
+        c = cmp(f(self.slot_operator), f(other.slot_operator))
         if c:
             return c
 
